@@ -290,4 +290,155 @@ theorem simple_case_witnesses :
   refine ⟨?_, ?_, ?_, ?_⟩ <;> decide +kernel
 
 
+/-! ## `_parse_duration`: "past / next / in  N days | weeks | months | years" -/
+
+/-- days per unit for the fixed-length units -/
+def unitDays : PerUnit → Int
+  | .D => 1 | .W => 7 | _ => 0
+
+theorem swiftDate_fixed (x : DateTime) (hv : x.date.valid = true) (u : PerUnit) (hu : u = .D ∨ u = .W) (n : Nat) (pos : Bool)
+    (r : DateTime) (h : swiftDate x u n pos = some r) :
+    r.date.valid = true ∧ r.secs = x.secs ∧
+    (pos = true → (r.date.ord : Int) = x.date.ord + unitDays u * n) ∧
+    (pos = false → (r.date.ord : Int) = x.date.ord - unitDays u * n) := by
+  unfold swiftDate at h
+  by_cases c : n = 0
+  · subst c; simp only [if_true, Option.some.injEq] at h; subst h
+    exact ⟨hv, rfl, by simp, by simp⟩
+  · rw [if_neg c] at h
+    rcases hu with hu | hu <;> subst hu <;> simp only at h
+    · have s := addDays_spec x hv _ r h
+      refine ⟨s.1, s.2.2, ?_, ?_⟩ <;> intro hp <;> subst hp <;> rw [s.2.1] <;> simp [unitDays] <;> omega
+    · have s := addDays_spec x hv _ r h
+      refine ⟨s.1, s.2.2, ?_, ?_⟩ <;> intro hp <;> subst hp <;> rw [s.2.1] <;> simp [unitDays] <;> omega
+
+/-- what `durationPeriod` computes for days and weeks, on ordinals: past = `[R − kN, R]`, next = `[R + 1, R + 1 + kN]`,
+in = `[R + 1 + kN − k, R + 1 + kN]` with `k` = 1 (days) or 7 (weeks); the count written is `N`, for "in" it is 1. -/
+def durBounds (R : Int) (mode : DurMode) (k : Int) (n : Int) : Int × Int × Int :=
+  match mode with
+  | .past => (R - k * n, R, n)
+  | .next => (R + 1, R + 1 + k * n, n)
+  | .inConn => (R + 1 + k * n - k, R + 1 + k * n, 1)
+
+/-- Days and weeks, every reference, every `N ≥ 1`, all three prefixes: both ends valid, begin < end, time of day
+kept, future = past, and the emitted `(begin,end,P<N>D|W)` satisfies `tripleOK`. -/
+theorem duration_days_weeks_ok (R : DateTime) (hv : R.date.valid = true) (mode : DurMode) (u : PerUnit)
+    (hu : u = .D ∨ u = .W) (n : Nat) (hn : 1 ≤ n) (t : Str) (b e pb pe : DateTime)
+    (h : durationPeriod R mode u n = .ok t b e pb pe) :
+    pb = b ∧ pe = e ∧ b.date.valid = true ∧ e.date.valid = true ∧ b.secs = R.secs ∧ e.secs = R.secs ∧
+    ((b.date.ord : Int), (e.date.ord : Int)) =
+      ((durBounds R.date.ord mode (unitDays u) n).1, (durBounds R.date.ord mode (unitDays u) n).2.1) ∧
+    b.date.ord < e.date.ord ∧
+    t = dateTriple b.date e.date (durBounds R.date.ord mode (unitDays u) n).2.2.toNat u.letter ∧
+    tripleOK t (some (formatDate b.date)) (some (formatDate e.date)) = true := by
+  have kn : 1 ≤ unitDays u * (n : Int) ∧ 1 ≤ unitDays u * ((1 : Nat) : Int) ∧ unitDays u * ((1 : Nat) : Int) ≤ unitDays u * (n : Int) := by
+    rcases hu with c | c <;> subst c <;> simp [unitDays] <;> omega
+  generalize hkn : unitDays u * (n : Int) = KN at kn
+  generalize hk1 : unitDays u * ((1 : Nat) : Int) = K1 at kn
+  -- one generic closing step once begin, end and the count are known
+  have close : ∀ (b' e' : DateTime) (cnt : Nat), b'.date.valid = true → e'.date.valid = true →
+      (e'.date.ord : Int) - b'.date.ord = unitDays u * cnt →
+      tripleOK (dateTriple b'.date e'.date cnt u.letter) (some (formatDate b'.date)) (some (formatDate e'.date)) = true := by
+    intro b' e' cnt vb ve hd
+    rcases hu with c | c <;> subst c
+    · exact date_triple_ok _ _ vb ve cnt 68 .D (by simp) (by simp only [durHolds]; simp [unitDays] at hd; omega)
+    · exact date_triple_ok _ _ vb ve cnt 87 .W (by simp) (by simp only [durHolds]; simp [unitDays] at hd; omega)
+  have tx : ∀ (b' e' : DateTime) (cnt : Nat),
+      [40] ++ luisOf b' ++ [44] ++ luisOf e' ++ [44, 80] ++ natStr cnt ++ [u.letter, 41] = dateTriple b'.date e'.date cnt u.letter := by
+    intro b' e' cnt; simp [dateTriple, luisOf]
+  unfold durationPeriod at h
+  cases mode with
+  | past =>
+    simp only at h
+    cases hs : swiftDate R u n false with
+    | none => simp [hs, ofOpt] at h
+    | some b0 =>
+      have s := swiftDate_fixed R hv u hu n false b0 hs
+      have so := s.2.2.2 rfl
+      rw [hkn] at so
+      have hne : b0 ≠ R := by intro e0; rw [e0] at so; omega
+      simp only [hs, Option.map_some, Option.bind_eq_bind, Option.bind_some, Option.pure_def, ofOpt, hne, ne_eq, not_false_eq_true, if_true,
+        Option.getD_some, Res.ok.injEq, tx] at h
+      obtain ⟨ht, hb, he, hpb, hpe⟩ := h
+      subst hb he hpb hpe
+      refine ⟨rfl, rfl, s.1, hv, s.2.1, rfl, ?_, by omega, ?_, ?_⟩
+      · simp only [durBounds, hkn]; rw [so]
+      · simp only [durBounds, Int.toNat_natCast]; exact ht.symm
+      · rw [← ht]; exact close _ _ n s.1 hv (by rw [hkn]; omega)
+  | next =>
+    simp only at h
+    cases h1 : DateUtils.addDays R 1 with
+    | none => simp [h1, ofOpt] at h
+    | some b0 =>
+    have s1 := addDays_spec R hv 1 b0 h1
+    cases hs : swiftDate b0 u n true with
+    | none => simp [h1, hs, ofOpt] at h
+    | some e0 =>
+      have s := swiftDate_fixed b0 s1.1 u hu n true e0 hs
+      have so := s.2.2.1 rfl
+      rw [hkn] at so
+      have hne : b0 ≠ e0 := by intro e'; rw [← e'] at so; omega
+      simp only [h1, hs, Option.bind_eq_bind, Option.bind_some, Option.pure_def, ofOpt, hne, ne_eq, not_false_eq_true, if_true,
+        Option.getD_some, Res.ok.injEq, tx] at h
+      obtain ⟨ht, hb, he, hpb, hpe⟩ := h
+      subst hb he hpb hpe
+      refine ⟨rfl, rfl, s1.1, s.1, s1.2.2, by rw [s.2.1, s1.2.2], ?_, by omega, ?_, ?_⟩
+      · simp only [durBounds, hkn]; rw [so, s1.2.1]
+      · simp only [durBounds, Int.toNat_natCast]; exact ht.symm
+      · rw [← ht]; exact close _ _ n s1.1 s.1 (by rw [hkn]; omega)
+  | inConn =>
+    simp only at h
+    cases h1 : DateUtils.addDays R 1 with
+    | none => simp [h1, ofOpt] at h
+    | some b0 =>
+    have s1 := addDays_spec R hv 1 b0 h1
+    cases hs : swiftDate b0 u n true with
+    | none => simp [h1, hs, ofOpt] at h
+    | some e0 =>
+    have s := swiftDate_fixed b0 s1.1 u hu n true e0 hs
+    have so := s.2.2.1 rfl
+    rw [hkn] at so
+    cases hb : swiftDate e0 u 1 false with
+    | none => simp [h1, hs, hb, ofOpt] at h
+    | some b1 =>
+      have sb := swiftDate_fixed e0 s.1 u hu 1 false b1 hb
+      have sbo := sb.2.2.2 rfl
+      rw [hk1] at sbo
+      have hne : b1 ≠ e0 := by intro e'; rw [e'] at sbo; omega
+      simp only [h1, hs, hb, Option.bind_eq_bind, Option.bind_some, Option.pure_def, ofOpt, hne, ne_eq, not_false_eq_true, if_true,
+        Option.getD_some, Res.ok.injEq, tx] at h
+      obtain ⟨ht, hb', he, hpb, hpe⟩ := h
+      subst hb' he hpb hpe
+      refine ⟨rfl, rfl, sb.1, s.1, by rw [sb.2.1, s.2.1, s1.2.2], by rw [s.2.1, s1.2.2], ?_, by omega, ?_, ?_⟩
+      · simp only [durBounds, hkn]
+        rw [sbo, so, s1.2.1]
+        have : unitDays u = K1 := by rw [← hk1]; simp
+        rw [this]
+      · simp only [durBounds]; exact ht.symm
+      · rw [← ht]; exact close _ _ 1 sb.1 s.1 (by rw [hk1]; omega)
+
+/-- Months and years go through `datedelta`: the triple is consistent when the day of the month survives the shift
+(first example) and is NOT when `datedelta` rolls forward into the next month (second: `next 2 months` asked on
+2019-12-30 → `(2019-12-31,2020-03-01,P2M)`, three calendar months apart) or clamps to the month end (third:
+`past 1 month` asked on 2020-03-31 → `(2020-02-29,2020-03-31,P1M)`, different day of the month). -/
+theorem duration_months_witnesses :
+    (durationPeriod ⟨⟨2020, 1, 29⟩, 0⟩ .next .M 2 =
+        .ok ("(2020-01-30,2020-03-30,P2M)".toList.map Char.toNat) ⟨⟨2020, 1, 30⟩, 0⟩ ⟨⟨2020, 3, 30⟩, 0⟩ ⟨⟨2020, 1, 30⟩, 0⟩ ⟨⟨2020, 3, 30⟩, 0⟩ ∧
+      tripleOK ("(2020-01-30,2020-03-30,P2M)".toList.map Char.toNat) (some ("2020-01-30".toList.map Char.toNat))
+        (some ("2020-03-30".toList.map Char.toNat)) = true) ∧
+    (durationPeriod ⟨⟨2019, 12, 30⟩, 0⟩ .next .M 2 =
+        .ok ("(2019-12-31,2020-03-01,P2M)".toList.map Char.toNat) ⟨⟨2019, 12, 31⟩, 0⟩ ⟨⟨2020, 3, 1⟩, 0⟩ ⟨⟨2019, 12, 31⟩, 0⟩ ⟨⟨2020, 3, 1⟩, 0⟩ ∧
+      tripleOK ("(2019-12-31,2020-03-01,P2M)".toList.map Char.toNat) (some ("2019-12-31".toList.map Char.toNat))
+        (some ("2020-03-01".toList.map Char.toNat)) = false) ∧
+    (durationPeriod ⟨⟨2020, 3, 31⟩, 0⟩ .past .M 1 =
+        .ok ("(2020-02-29,2020-03-31,P1M)".toList.map Char.toNat) ⟨⟨2020, 2, 29⟩, 0⟩ ⟨⟨2020, 3, 31⟩, 0⟩ ⟨⟨2020, 2, 29⟩, 0⟩ ⟨⟨2020, 3, 31⟩, 0⟩ ∧
+      tripleOK ("(2020-02-29,2020-03-31,P1M)".toList.map Char.toNat) (some ("2020-02-29".toList.map Char.toNat))
+        (some ("2020-03-31".toList.map Char.toNat)) = false) := by
+  refine ⟨⟨?_, ?_⟩, ⟨?_, ?_⟩, ⟨?_, ?_⟩⟩ <;> decide +kernel
+
+example : durationPeriod ⟨⟨2020, 1, 29⟩, 52200⟩ .inConn .W 2 =
+    .ok ("(2020-02-06,2020-02-13,P1W)".toList.map Char.toNat) ⟨⟨2020, 2, 6⟩, 52200⟩ ⟨⟨2020, 2, 13⟩, 52200⟩ ⟨⟨2020, 2, 6⟩, 52200⟩ ⟨⟨2020, 2, 13⟩, 52200⟩ := by
+  decide +kernel
+
+
 end RTV.Periods
